@@ -184,6 +184,8 @@ def Header.wireValid (h : Header) : Except String Unit :=
   if h.requiredSize % 4 ≠ 0 then .error "header size must be a multiple of 4 bytes"
   else if h.requiredSize > ScionHeader.MAX_SIZE_BYTES then .error "header size exceeds maximum encodeable value of 1020 bytes"
   else if h.flowId > CommonHeader.FLOW_ID_RNG.maxUint then .error "flow_id exceeds maximum encodeable value"
+  -- a non-canonical `ProtocolNumber::Other(k)` with an assigned `k` (6, 17, 43, 201, 202, 203) is modelled as `256 + k`
+  else if h.nextHeader ≥ 256 then .error "next_header must not be a non canonical ProtocolNumber::Other"
   else match h.dstHost.wireValid with
     | .error e => .error e
     | .ok () => match h.srcHost.wireValid with
@@ -243,6 +245,8 @@ def PacketM.requiredSize (p : PacketM) : Nat := p.header.requiredSize + p.payloa
 def Payload.wireValid : Payload → Except String Unit
   | .scmp m =>
     if m.kind == "Unknown" ∧ (scmpRow m.typ).code.isSome then .error "ScmpMessageUnknown must not use a known message type"
+    -- a non-canonical `Scmp…Code::Unassigned(k)` with an assigned `k` is modelled as `256 + k`
+    else if m.code ≥ 256 then .error "SCMP code must not be a non canonical Unassigned code"
     else .ok ()
   | _ => .ok ()
 
